@@ -23,8 +23,8 @@ pub static DEF: PropDef = PropDef {
     level: "exploration",
     total: |t| t.pick(512, 11200),
     run,
-    rule: "record sets of 1..8 names (any printable ASCII other than the space delimiter, upper and lower case, 1..61 characters, incl. names that make the query longer than 80 bytes; one name in three is a near-duplicate of another record: same letters in another case, one character changed, a proper prefix, an extension, a trailing dot) with arbitrary addresses (0.0.0.0, 255.255.255.255, 127.0.0.1, the server's own address and addresses shared by two records over-represented) registered at the authoritative server; 1..10 clients each performing a sequence of lookups (first lookup of a name is cold, repeats must be cache hits), all clients concurrently, with 0..8 ms latency jitter so replies overtake each other; the server is told to serve exactly the number of cold queries. Every return value of DnsClient::get_host_by_name is compared with the record; every DNS frame seen by the H4 hook is decoded: a response must echo the identifier and name of the query sent from the port it goes to; between a successful lookup and the end of the following repeats of the same name by the same client the hook must see no new frame from that client. Non-trivial = >=2 clients, >=2 names and >=1 cache hit; distinct by scenario hash.",
-    assumptions: &["only names that have a record are looked up (the statement is about those)", "lookups of one client are sequential; different clients run concurrently"],
+    rule: "record sets of 1..8 names (any printable ASCII other than the space delimiter, upper and lower case, 1..61 characters, incl. names that make the query longer than 80 bytes; one name in three is a near-duplicate of another record: same letters in another case, one character changed, a proper prefix, an extension, a trailing dot) with arbitrary addresses (0.0.0.0, 255.255.255.255, 127.0.0.1, the server's own address and addresses shared by two records over-represented) registered at the authoritative server; 1..10 clients each performing a sequence of lookups (first lookup of a name is cold, repeats must be cache hits) - one client in three runs 2..3 such sequences over disjoint names at the same time, so that several of its lookups are in flight together -, all clients concurrently, with 0..8 ms latency jitter so replies overtake each other; the server is told to serve exactly the number of cold queries. Every return value of DnsClient::get_host_by_name is compared with the record; every DNS frame seen by the H4 hook is decoded: a response must echo the identifier and name of the query sent from the port it goes to; between a successful lookup and the end of the following repeats of the same name by the same client the hook must see no new frame from that client. Non-trivial = >=2 clients, >=2 names and >=1 cache hit; distinct by scenario hash.",
+    assumptions: &["only names that have a record are looked up (the statement is about those)", "a client's concurrent lookup sequences use disjoint names (two cold lookups of one name in flight at once would make the number of queries the server has to serve unpredictable); the no-traffic rule for repeats is only applied to clients with a single sequence"],
     may_exit_process: true,
     watchdog_s: 120,
     nt_floor: |t| t.pick(20, 300),
@@ -43,6 +43,8 @@ struct LookupRes {
     frames_before: usize,
     frames_after: usize,
     cold: bool,
+    /// how many lookup sequences the client ran at the same time (frames are only attributable when 1)
+    lanes: usize,
 }
 
 fn gen_name(rng: &mut impl Rng) -> String {
@@ -118,23 +120,32 @@ fn scenario(env: &Env, k: u64, case: u64, rng: &mut rand::rngs::SmallRng, d: &mu
         }
     }
     let n_clients = rng.gen_range(1..=10usize);
-    let with_arp = rng.chance(1, 2);
+    let with_arp = rng.chance(1, 2) && std::env::var("C20_NOARP").is_err();
     let jitter = *rng.pick(&[0u64, 1, 8]);
-    let mut plans: Vec<Vec<usize>> = vec![]; // per client: indices into names
+    // per client: 1..3 lanes running at the same time, each a sequence of indices into names. A client with
+    // several lanes has several lookups in flight at once; its lanes use disjoint names (index mod lanes), so
+    // that the number of cold queries stays known in advance.
+    let mut plans: Vec<Vec<Vec<usize>>> = vec![];
     let mut cold_total = 0usize;
     for _ in 0..n_clients {
-        let steps = rng.gen_range(1..=6);
-        let mut seen = vec![];
-        let mut p = vec![];
-        for _ in 0..steps {
-            let i = if !seen.is_empty() && rng.chance(1, 2) { *rng.pick(&seen) } else { rng.gen_range(0..n_names) };
-            if !seen.contains(&i) {
-                seen.push(i);
-                cold_total += 1;
+        let lanes = if std::env::var("C20_NOLANES").is_err() && n_names >= 2 && rng.chance(1, 3) { rng.gen_range(2..=3usize.min(n_names)) } else { 1 };
+        let mut client = vec![];
+        for lane in 0..lanes {
+            let mine: Vec<usize> = (0..n_names).filter(|i| i % lanes == lane).collect();
+            let steps = rng.gen_range(1..=6);
+            let mut seen = vec![];
+            let mut p = vec![];
+            for _ in 0..steps {
+                let i = if !seen.is_empty() && rng.chance(1, 2) { *rng.pick(&seen) } else { *rng.pick(&mine) };
+                if !seen.contains(&i) {
+                    seen.push(i);
+                    cold_total += 1;
+                }
+                p.push(i);
             }
-            p.push(i);
+            client.push(p);
         }
-        plans.push(p);
+        plans.push(client);
     }
     let desc = json!({
         "names": names.iter().map(|(n, a)| format!("{n} -> {}", ip(*a))).collect::<Vec<_>>(),
@@ -180,25 +191,41 @@ fn scenario(env: &Env, k: u64, case: u64, rng: &mut rand::rngs::SmallRng, d: &mu
                     Box::pin(async move {
                         let dns = machine.protocol::<DnsClient>().unwrap();
                         let my_mac = machine.protocol::<Pci>().unwrap().mac_addresses().next().unwrap();
-                        let mut seen: Vec<usize> = vec![];
-                        for (step, i) in plan.iter().enumerate() {
-                            let count = |r: &Recorder| r.frames.lock().unwrap().iter().filter(|f| f.sender == my_mac).count();
-                            let before = count(&rec2);
-                            let r = dns.get_host_by_name(names[*i].0.clone(), machine.clone()).await;
-                            // let anything this lookup may have triggered hit the wire before counting
-                            tokio::time::sleep(ms(1)).await;
-                            let after = count(&rec2);
-                            let cold = !seen.contains(i);
-                            seen.push(*i);
-                            results.lock().unwrap().push(LookupRes {
-                                client: c,
-                                step,
-                                name: names[*i].0.clone(),
-                                result: r.map(|a| a.to_u32()).map_err(|e| format!("{e:?}")),
-                                frames_before: before,
-                                frames_after: after,
-                                cold,
-                            });
+                        let lanes = plan.len();
+                        let mut lane_tasks = vec![];
+                        for (lane, lane_plan) in plan.into_iter().enumerate() {
+                            let (dns, machine, names, results, rec2) = (dns.clone(), machine.clone(), names.clone(), results.clone(), rec2.clone());
+                            lane_tasks.push(tokio::spawn(async move {
+                                let mut seen: Vec<usize> = vec![];
+                                for (step, i) in lane_plan.iter().enumerate() {
+                                    let count = |r: &Recorder| r.frames.lock().unwrap().iter().filter(|f| f.sender == my_mac).count();
+                                    let before = count(&rec2);
+                                    // a lookup that gets no answer is given up after 10 s of simulated time (dropping the
+                                    // future), so that it is reported as such instead of dying with the run's shutdown
+                                    let r = match tokio::time::timeout(Duration::from_secs(10), dns.get_host_by_name(names[*i].0.clone(), machine.clone())).await {
+                                        Ok(r) => r.map_err(|e| format!("{e:?}")),
+                                        Err(_) => Err("no answer within 10 s of simulated time".to_string()),
+                                    };
+                                    // let anything this lookup may have triggered hit the wire before counting
+                                    tokio::time::sleep(ms(1)).await;
+                                    let after = count(&rec2);
+                                    let cold = !seen.contains(i);
+                                    seen.push(*i);
+                                    results.lock().unwrap().push(LookupRes {
+                                        client: c,
+                                        step: lane * 100 + step,
+                                        name: names[*i].0.clone(),
+                                        result: r.map(|a| a.to_u32()),
+                                        frames_before: before,
+                                        frames_after: after,
+                                        cold,
+                                        lanes,
+                                    });
+                                }
+                            }));
+                        }
+                        for t in lane_tasks {
+                            let _ = t.await;
                         }
                         if remaining.fetch_sub(1, std::sync::atomic::Ordering::SeqCst) == 1 {
                             tokio::time::sleep(ms(50)).await;
@@ -215,7 +242,7 @@ fn scenario(env: &Env, k: u64, case: u64, rng: &mut rand::rngs::SmallRng, d: &mu
         })
     };
     let res = results.lock().unwrap().clone();
-    let total_lookups: usize = plans.iter().map(|p| p.len()).sum();
+    let total_lookups: usize = plans.iter().map(|p| p.iter().map(|l| l.len()).sum::<usize>()).sum();
     d.tally("lookups", total_lookups as u64);
     d.tally("frames", frames.len() as u64);
     let witness = |extra: Value| json!({"scenario": desc, "status": format!("{status:?}"), "detail": extra});
@@ -243,6 +270,12 @@ fn scenario(env: &Env, k: u64, case: u64, rng: &mut rand::rngs::SmallRng, d: &mu
         }
         if !r.cold {
             cache_hits += 1;
+        }
+        if r.lanes > 1 {
+            // frames of this client's other lanes fall into the window: only the result is judged
+            continue;
+        }
+        if !r.cold {
             if r.frames_after != r.frames_before {
                 d.violation(
                     "cache-hit-put-frames-on-the-network",
